@@ -265,10 +265,15 @@ pub fn method(s: &mut Src, cfg: &GenCfg) -> MethodM {
 }
 
 pub fn konst(s: &mut Src, cfg: &GenCfg) -> ConstM {
+    // with a small method-name pool, constants sometimes share a name with a method
+    let name = match &cfg.method_names {
+        Some(v) if s.chance(1, 2) => (*s.pick(v)).to_owned(),
+        _ => ident(s),
+    };
     ConstM {
         annos: annos(s, cfg),
         ty: ty(s, cfg, 1, false),
-        name: ident(s),
+        name,
         value: if cfg.values {
             value(s, 0)
         } else {
